@@ -47,7 +47,7 @@ try:
         if pl is None: return None
         if pl[0] == "test":
             race = ["-race"] if "race" in open(os.path.join(seed, "NOTES.md")).read().lower() and prop == "C15" else []
-            r = sh(["go", "test", "-mod=mod", "-vet=off", "-count=1"] + race + ["-run", "Seed|Demo", "./" + pl[1].lstrip("./") if pl[1] != "." else "."], cwd=wt)
+            r = sh(["go", "test", "-mod=mod", "-vet=off", "-count=1"] + race + ["./" + pl[1].lstrip("./") if pl[1] != "." else "."], cwd=wt)
         else:
             r = sh(["go", "run", pl[1]], cwd=wt)
         return r.returncode == 0, (r.stdout + r.stderr)[-400:]
